@@ -6,6 +6,18 @@ ALL = ["C%02d" % i for i in range(1, 21)]
 
 # id -> (engine, level, technique, text, note, design_ref)
 CHECKS = {
+ "C01": ("mc-seq", "exploration",
+   "exhaustive enumeration of a message-shape x garbage x framing product on the real DltMessageIterator against an independent byte builder",
+   "Every stream of the stated finite product (all 32 header-flag sets, payload sizes incl. maximum, id/counter variants, 12 garbage lengths x 8 contents before/between/after, both framings, singles / all ordered shape pairs / core triples) is parsed by the real iterator and compared field by field with an independently written builder, incl. the skipped/processed counters. Coverage statement for the product, not for all byte values.",
+   "Trusted: the harness' byte builder and the marker scanner that enforces the property's premise. Not covered: payload/garbage byte values outside the pattern sets.", "4 C01"),
+ "C02": ("mc-seq", "exploration",
+   "exhaustive enumeration of parsed-message shapes through to_write / re-parse / to_write",
+   "Every message of the stated product (32 flag sets x both framings x payload sizes incl. every size 0..max for selected shapes x id sets x reception/timestamp corners) and every sequence of <= 5/6 pool messages (incl. payloads containing frame markers) is exported with the real writer, re-read with the real parser and exported again: consumed == written, fields equal, second export byte-identical, streams keep order and count.",
+   "Trusted: harness builder/comparison. The CLI path (adlt convert -o) is exercised by C14.", "4 C02"),
+ "C04": ("mc-seq", "model_checking",
+   "explicit-state BFS by re-execution over reader operations (dedup on canonical state) + exhaustive read-size schedule enumeration for the iterator",
+   "Reader: from the initial state every sequence of 19 operations (fill/consume/read/seek with state-relative arguments) is explored breadth-first per configuration with state deduplication (and an undeduplicated tree to depth 4/5), each transition executed on the real LowMarkBufReader over a scripted short-read source and compared with a byte-vector + cursor model. Iterator: 10 streams x 3 capacities x ~300 read-size schedules (constants incl. 1 byte, all single and double deviations in the first 12 calls) must give identical messages and counters; whole-message suffixes parse to the tail.",
+   "Trusted: harness model (byte vector + cursor), fingerprint argument (see evidence rule). Low mark = adlt::dlt::DLT_MIN_PARSER_LOOKAHEAD_SIZE, the constant the production call sites pass.", "4 C04"),
  "C05": ("mc-seq", "model_checking",
    "stateless bounded exhaustive exploration of event sequences (full depth + deviation-bounded + two-phase) on the real lifecycle stage",
    "Every event sequence in the stated bounds (all sequences to depth 3/4 over a 40-symbol alphabet derived from the detector's thresholds; all length-8..12 sequences with <=3..4 deviations over 48 symbols; all prefix/suffix splits over a shared table) is executed on parse_lifecycles_buffered_from_stream and compared with the identity stream: same messages, same order, lifecycle id non-zero and of the message's ECU. A coverage statement for the bounds, not a proof for unbounded streams.",
